@@ -402,7 +402,98 @@ def c03_direct(case, obs):
                     "treat-empty-as-default must be applied alike on both paths): %s"
                     % ("accepts" if d["v"][0] == "ok" else "rejects", "accepts" if d["s"][0] == "ok" else "rejects",
                        _describe(schema, d["v"][1])))
+    for op, o, _i, why in c03_native_dispatch_findings(case, obs):
+        return ("C03: a one-of with an inlined discriminator serialized the native value %s to %s, which Unserialize %s: Serialize "
+                "dispatched the value by its Go type, Unserialize routes the same content by its discriminator (one dispatch rule "
+                "for raw and native values): %s" % (_fmt(op[1])[:300], _fmt(o[1])[:300], why, _describe(schema, op)))
     return None
+
+
+def _native_type(v):
+    """the Go type of a native struct value as printed: (st T ...) / (p (ptr T) (st T ...))"""
+    if isinstance(v, list) and v:
+        if v[0] == "st":
+            return _fmt(v[1])
+        if v[0] == "p":
+            return _fmt(v[1])
+    return None
+
+
+def c03_native_dispatch_findings(case, obs):
+    """top-level one-of with an INLINED discriminator (members without presence rules between properties): a native value that
+    Serialize accepts must come back from Unserialize as a value of the same Go type"""
+    schema, ops = _payload(case)
+    oo = _obs_ops(obs)
+    if oo is None or _head(schema) != "oneof" or schema[4] != "1":
+        return
+    for i, (op, o) in enumerate(zip(ops, oo)):
+        if op[0] != "sr" or not isinstance(o, list) or len(o) < 3 or _cls(o[1]) != "ok":
+            continue
+        t = _native_type(op[1])
+        if t is None:
+            continue
+        if _cls(o[2]) != "ok":
+            yield op, o, i, "rejects (%s)" % _fmt(o[2])[:120]
+        elif _native_type(o[2][1]) != t:
+            yield op, o, i, "returns as a value of another member's type (%s)" % _fmt(o[2][1])[:200]
+
+
+def _own_discriminator(schema, v):
+    """(key of the member whose Go type is the native value's, the value of the native value's own discriminator field or None)"""
+    field = _s(schema[3])
+    st = v
+    if isinstance(v, list) and v and v[0] == "p" and isinstance(v[2], list):
+        st = v[2]
+    if not (isinstance(st, list) and st and st[0] == "st"):
+        return None, None
+    ptr = v[0] == "p"
+    key = None
+    fname = None
+    for m in schema[2]:
+        mo = m[1]
+        if _head(mo) == "xobject" and ["struct", mo[4][1]] == st[1] and (mo[4][2] == "1") == ptr:
+            key = _s(m[0])
+            f = _fields(mo).get(field)
+            fname = _s(f[1]) if f else None
+    if key is None or fname is None:
+        return key, None
+    for fv in st[2:]:
+        if _s(fv[0]) == fname:
+            x = fv[1]
+            if isinstance(x, list) and x[0] == "p":
+                x = x[2]
+            if isinstance(x, list) and x[0] in ("s", "i"):
+                return key, _s(x[2])
+    return key, None
+
+
+def known_d85(m, case, obs, pred):
+    """inlined one-of, native STRUCT value whose own discriminator field is set to something else than the key of the member
+    with its Go type: dispatched by type by Validate / Serialize, by content by Unserialize.  Matches only when these are the
+    only C03 findings of the case, each on such a value, each exactly as the faithful model predicts."""
+    schema, ops = _payload(case)
+    if list(c03_findings(case, obs)):
+        return False
+    fs = list(c03_native_dispatch_findings(case, obs))
+    if not fs:
+        return False
+    first = c03_direct(case, obs)
+    if first is None or "dispatched the value by its Go type" not in first:
+        return False          # some other C03 finding comes first
+    field = _s(schema[3])
+    for op, o, i, _why in fs:
+        key, _own = _own_discriminator(schema, op[1])
+        # the discriminator Serialize emitted (the member's own field: set to another key, or - a non-pointer field without
+        # treat-empty-as-default - its zero value) is not the key of the member the value was dispatched to
+        emitted = None
+        for e in o[1][1][3:]:
+            if isinstance(e[0], list) and e[0][0] == "s" and _s(e[0][2]) == field and isinstance(e[1], list) and e[1][0] in ("s", "i"):
+                emitted = _s(e[1][2])
+        if key is None or emitted is None or emitted == key:
+            return False
+        if not _model_agrees(obs, pred, i):
+            return False
+    return True
 
 
 # ---- known-finding classes ----
@@ -539,6 +630,7 @@ def register(props):
     props.KNOWN_PREDICATES["struct_d41"] = known_d41
     props.KNOWN_PREDICATES["struct_d44"] = known_d44
     props.KNOWN_PREDICATES["struct_subdefault_cycle"] = known_cycle
+    props.KNOWN_PREDICATES["struct_oneof_native_discriminator"] = known_d85
     direct = {"C01": c01_direct, "C03": c03_direct, "C04": c04_direct}
     for real, f in direct.items():
         props.DIRECT[(real, "structobj")] = f
